@@ -7,7 +7,7 @@ import os
 import subprocess
 import warnings
 
-from .common import Suite, errname, hx, merge
+from .common import Oracle, Suite, errname, hx, merge
 
 GEN_UNITS = ["Des", "Totp", "Blowfish", "Scrypt", "B64", "Md4", "CryptoDigest"]
 LEAN_TARGETS = ["PasslibVerif.Props.C11", "PasslibVerif.Props.C11Blowfish", "PasslibVerif.Props.C11Scrypt", "PasslibVerif.Props.C11Md4"]
@@ -187,7 +187,11 @@ def correspond(ctx):
     for n, r, p in [(16, 8, 1), (15, 8, 1), (0, 1, 1), (1, 1, 1), (2, 1, 1), (-16, 8, 1), (16, 0, 1), (16, 1, 0), (1 << 20, 1 << 15, 1 << 15), (16, 1 << 29, 2), (16, 1 << 29, 1), (24, 1, 1), (1 << 40, 1, 1)] + [(rng.randrange(-4, 70), rng.randrange(-1, 10), rng.randrange(-1, 10)) for _ in range(300)]:
         s_sc.add(f"scrypt validate {n} {r} {p}", lambda n=n, r=r, p=p: (ps.validate(n, r, p), "")[1].strip(), "validate")
     o_sasl = saslprep_oracle(ctx)
-    res = merge(s_des, s_spec, s_dig, s_mac, s_bf, s_sc, o_sasl)
+    o_mp = Oracle(ctx, "hmac-multipart-and-bcrypt-boundaries")
+    for gen in (hmac_multipart_cases(rng, 40 if not ctx.thorough else 1500), bcrypt_core_cases(rng)):
+        for tag, inp, ok, obs, exp in gen:
+            o_mp.check(tag, ok, inp, obs, exp)
+    res = merge(s_des, s_spec, s_dig, s_mac, s_bf, s_sc, o_sasl, o_mp)
     res["suites"]["bcrypt-core"]["bcrypt_wheel_cases"] = wheel_checked
     res["suites"]["des-spec-vs-passlib-and-openssl"]["openssl_pairs"] = ossl
     return res
@@ -290,6 +294,68 @@ def ref_des():
     return crypt
 
 
+def hmac_multipart_cases(rng, n=40):
+    """compile_hmac(multipart=True): after any sequence of update() calls, every finalize() -- called once, repeatedly, or between updates --
+    is RFC 2104 HMAC of the bytes fed so far; two message objects from one compiled key are independent.  (tag, input, ok, observed, expected)"""
+    import hmac as std_hmac
+
+    from passlib.crypto import digest as pdg
+
+    for _ in range(n):
+        alg = rng.choice(["md5", "sha1", "sha256", "sha512"])
+        B = hashlib.new(alg).block_size
+        key = rng.randbytes(rng.choice([0, 1, B - 1, B, B + 1, 2 * B + 3, rng.randrange(0, 3 * B)]))
+        mk = pdg.compile_hmac(alg, key, multipart=True)
+        up1, fin1 = mk()
+        up2, fin2 = mk()
+        fed1, fed2 = b"", b""
+        steps = []
+        for _k in range(rng.randrange(2, 9)):
+            which = rng.choice(["u1", "f1", "f1", "u2", "f2"])
+            steps.append(which)
+            if which == "u1":
+                c = rng.randbytes(rng.randrange(0, 70))
+                up1(c)
+                fed1 += c
+            elif which == "u2":
+                c = rng.randbytes(rng.randrange(0, 70))
+                up2(c)
+                fed2 += c
+            else:
+                fin, fed = (fin1, fed1) if which == "f1" else (fin2, fed2)
+                got, want = fin().hex(), std_hmac.new(key, fed, alg).hexdigest()
+                yield ("hmac-multipart", {"op": "hmac-multipart", "alg": alg, "key": key.hex(), "steps": list(steps), "fed": fed.hex()}, got == want, got, want)
+
+
+def bcrypt_core_cases(rng):
+    """raw_bcrypt for every ident at the boundary lengths (the empty password included): an answer, equal to the bcrypt wheel where the wheel
+    implements the ident ($2a$/$2b$/$2y$; the legacy $2$ repeats the password without the NUL: a password whose repetition fills the 72 bytes exactly
+    equals $2a$ of that 72-byte string)"""
+    from passlib.crypto._blowfish import raw_bcrypt
+
+    try:
+        import bcrypt as wheel
+    except Exception:  # noqa: BLE001
+        wheel = None
+    salt = "abcdefghijklmnopqrstuO"
+    for ident in ("2", "2a", "2y", "2b"):
+        for pw in (b"", b"a", b"ab" * 36, b"x" * 72, b"abc" * 24, b"p" * 71, bytes(range(1, 73))):
+            inp = {"op": "raw-bcrypt", "ident": ident, "pwd": pw.hex(), "salt": salt, "cost": 4}
+            try:
+                got = raw_bcrypt(pw, ident, salt.encode(), 4).decode()
+            except Exception as e:  # noqa: BLE001
+                yield ("raw-bcrypt:answers", inp, False, errname(e) + ": " + str(e)[:60], "a digest")
+                continue
+            if wheel is None or 0 in pw:
+                continue
+            if ident != "2" and len(pw) <= 72:
+                want = wheel.hashpw(pw, f"$2b$04${salt}".encode())[-31:].decode() if ident != "2a" else wheel.hashpw(pw, f"$2a$04${salt}".encode())[-31:].decode()
+                yield ("raw-bcrypt:wheel", inp, got == want, got, want)
+            elif ident == "2" and pw and 72 % len(pw) == 0:
+                want = wheel.hashpw((pw * (72 // len(pw))), f"$2a$04${salt}".encode())[-31:].decode()
+                yield ("raw-bcrypt:legacy-2-is-repetition", inp, got == want, got, want)
+
+
 def search(ctx, broken, seeds):
     warnings.simplefilter("ignore")
     o = saslprep_oracle(ctx, first_only=True)
@@ -301,6 +367,10 @@ def search(ctx, broken, seeds):
     from passlib.crypto._md4 import md4 as pmd4
 
     rng = ctx.rng
+    for gen in (hmac_multipart_cases(rng, 60), bcrypt_core_cases(rng)):
+        for tag, inp, ok, obs, exp in gen:
+            if not ok:
+                return {"input": inp, "observed": obs, "expected": exp, "check": tag}
     ref = ref_des()
     cases = [(rng.getrandbits(64), rng.getrandbits(64), rng.choice([0, rng.getrandbits(24)]), rng.choice([1, 1, 2, 25])) for _ in range(400)]
     cases += [(1 << b, 0x0123456789ABCDEF, 0, 1) for b in range(64)] + [(0x0123456789ABCDEF, 1 << b, 0, 1) for b in range(64)]
